@@ -163,3 +163,6 @@ func vh_C14_converters_Q() { vhC11Kernel(1, 2, "01-a", 12, true) }
 
 // dialect agreement of both converters (C11 kernel)
 func vh_C11_kernel_Q() { vhC11Kernel(2, 2, "01-a", 12, false) }
+
+// rule values with the separators the converters split on ('=', '|', blank)
+func vh_C11_kernel_separators_Q() { vhC11Kernel(1, 3, "a=| ", 14, false) }
